@@ -183,10 +183,14 @@ func (p *customScriptProcessor) storeRequestChanges(apiStream public_types.APISt
 		return fmt.Errorf("failed to cast request to OnRequest")
 	}
 
+	updatedReqMap, success := requestValExported.(map[string]any)
+	if !success {
+		return fmt.Errorf("the script left a %T in request, expected an object", requestValExported)
+	}
+
 	// should make headers zero, otherwise json.Unmarshal will perform union
 	originalReq.Headers = make(map[string]string)
 
-	updatedReqMap := requestValExported.(map[string]any)
 	jsonData, err := json.Marshal(updatedReqMap)
 	if err != nil {
 		return err
@@ -220,10 +224,14 @@ func (p *customScriptProcessor) storeResponseChanges(apiStream public_types.APIS
 		return fmt.Errorf("failed to cast request to OnResponse")
 	}
 
+	updatedResMap, success := responseValExported.(map[string]any)
+	if !success {
+		return fmt.Errorf("the script left a %T in response, expected an object", responseValExported)
+	}
+
 	// should make headers zero, otherwise json.Unmarshal will perform union
 	originalResp.Headers = make(map[string]string)
 
-	updatedResMap := responseValExported.(map[string]any)
 	jsonData, err := json.Marshal(updatedResMap)
 	if err != nil {
 		return err
